@@ -21,7 +21,7 @@ LEVEL = "exploration"
 # instructions, every 100 steps of each regex loop and between regex search attempts.
 VM_B = 1100        # VM instructions executed after the deadline
 RX_MAIN_B = 300    # consecutive main-loop regex steps after the deadline (no VM step in between)
-RX_B = 12000       # consecutive regex steps of any loop (100 main steps x <100-step lookaround calls)
+RX_B = 400         # consecutive regex steps of any loop (lookaround bodies share the attempt's step counter)
 B = VM_B
 POLL = 1100       # an error class is only judged if it surfaced later than deadline + one poll period
 
@@ -53,6 +53,11 @@ REGEX_CORES = [
     ("rx-backref", "/(a*)\\1*b/", A28),
     ("rx-lookahead-body", "/(?=(a+)+b)a/", A28),
     ("rx-in-lookbehind", "/(?<=(a|a)*b)c/", A28 + "c"),
+    # lookarounds entered again and again inside a catastrophic loop (their steps must count towards the same poll interval)
+    ("rx-lookahead-in-loop", "/^(?:(?=a)a+)+$/", A28 + "!"),
+    ("rx-neg-lookahead-in-loop", "/^(?:(?!b)a+)+$/", A28 + "!"),
+    ("rx-lookbehind-in-loop", "/^(?:a+(?<=a))+$/", A28 + "!"),
+    ("rx-lookahead-alt-in-loop", "/^(?:(?=a)a|(?=a)aa)+$/", A28 + "!"),
 ]
 
 
